@@ -7,20 +7,38 @@
 import GM.Proof.ShiftSimXEnd5
 import GM.Proof.ShiftSimXEnd6
 import GM.Proof.ShiftSimXRi
+import GM.Proof.ShiftSimXSafe2
 
 namespace GM.Blocks.Xs
 open GM GM.Text GM.Spec GM.Proof.Reader GM.Blocks
 
-/-- prefix determinism + closing at the end of the source = closing by a blank line, for the class -/
+/-- the byte-level class of round 3 is contained in the positional class -/
+theorem plainL_of_plain6 (b : Bytes) (h : Plain6 b) : PlainL b := by
+  intro j ch hj _
+  have hm : ch ∈ b := List.mem_of_getElem? hj
+  obtain ⟨h1, h2, h3, h4, h5, h6, h7⟩ := h ch hm
+  exact ⟨h1, h2, h3, h4, h5, h6, h7⟩
+
+/-- prefix determinism + closing at the end of the source = closing by a blank line, for the positional class -/
+theorem reach_plainL (a h b : Bytes) (hh : ∀ c ∈ h, c ≠ 10) (ha : a.getLast? = some 10) (hpl : PlainL a)
+    (sa sh sd : St) (hsa : run a = .ok sa) (hsh : run (headingLine h) = .ok sh) (hsd : run (indepDoc a h b) = .ok sd)
+    (hraw : endsInRawBlock sa = false) : Sh.Reach a h b sa sh sd :=
+  reach_plainL_of a h b hh ha hpl (passKeeps a ha hpl) (openKeeps a ha hpl) sa sh sd hsa hsh hsd hraw
+
+/-- **C09 first half for the positional class**: `a` ends with a line feed and no line of `a` starts, after its quote
+    markers and indentation, with a list / setext / fence trigger -/
+theorem independent_blocks_plainL (a h b : Bytes) (ha : a.getLast? = some 10) (hpl : PlainL a) :
+    ∀ e g, indepPair a h b = some (e, g) → e = g :=
+  independent_blocks_plainL_of a h b ha hpl (passKeeps a ha hpl) (openKeeps a ha hpl)
+
+/-- (round 3) the byte-level class -/
 theorem reach_plain (a h b : Bytes) (hh : ∀ c ∈ h, c ≠ 10) (ha : a.getLast? = some 10) (hpl : Plain6 a)
     (sa sh sd : St) (hsa : run a = .ok sa) (hsh : run (headingLine h) = .ok sh) (hsd : run (indepDoc a h b) = .ok sd)
     (hraw : endsInRawBlock sa = false) : Sh.Reach a h b sa sh sd :=
-  reach_plain6 a h b hh ha hpl (passKeeps a ha hpl (ri_open6 a) (ri_continue6 a)) (openKeeps a hpl (ri_open6 a))
-    sa sh sd hsa hsh hsd hraw
+  reach_plainL a h b hh ha (plainL_of_plain6 a hpl) sa sh sd hsa hsh hsd hraw
 
 theorem independent_blocks_plain6 (a h b : Bytes) (ha : a.getLast? = some 10) (hpl : Plain6 a) :
     ∀ e g, indepPair a h b = some (e, g) → e = g :=
-  independent_blocks_plain6_of a h b ha hpl (passKeeps a ha hpl (ri_open6 a) (ri_continue6 a))
-    (openKeeps a hpl (ri_open6 a))
+  independent_blocks_plainL a h b ha (plainL_of_plain6 a hpl)
 
 end GM.Blocks.Xs
